@@ -400,6 +400,17 @@ func registerLibHooks(e *Engine) {
 	H["strings.HasPrefix"] = func(st *State, a []Value) Value { return BoolT(st.hasPrefix(a[0].(*Term), a[1].(*Term))) }
 	H["strings.HasSuffix"] = func(st *State, a []Value) Value { return BoolT(st.hasSuffix(a[0].(*Term), a[1].(*Term))) }
 	H["strings.Contains"] = func(st *State, a []Value) Value { return StrContains(a[0].(*Term), a[1].(*Term)) }
+	H["strings.ReplaceAll"] = func(st *State, a []Value) Value {
+		s, o, n := a[0].(*Term), a[1].(*Term), a[2].(*Term)
+		if s.Const && o.Const && n.Const {
+			return StrT(strings.ReplaceAll(s.CS, o.CS, n.CS))
+		}
+		if o.Const && s.Const && !strings.Contains(s.CS, o.CS) {
+			return s
+		}
+		st.unsupported("strings.ReplaceAll on symbolic strings")
+		return nil
+	}
 	H["strings.Index"] = func(st *State, a []Value) Value {
 		s, sep := a[0].(*Term), a[1].(*Term)
 		if sep.Const && len(sep.CS) > 0 {
